@@ -234,3 +234,16 @@ Definition chk_count_by (rows : list nrow) (k : nat) (obs : list (val * list (op
 From NP Require Import Targets.
 Definition res_layer_eqb (a b : res layer) : bool :=
   match a, b with Ok x, Ok y => layer_eqb x y | Err, Err => true | _, _ => false end.
+
+(* ---------- C03 / C04 / C10: the per-row numpy view (NumpyView.v) ---------- *)
+From NP Require Import NumpyView.
+Definition nprow_eqb (a b : nprow) : bool :=
+  option_eqb (fun x y => npdtype_eqb (fst x) (fst y) && vlist_eqb (snd x) (snd y)) a b.
+Definition denan_nprow (r : nprow) : nprow := option_map (fun x => (fst x, map denan (snd x))) r.
+(* impl: per row the dtype and the values as numpy shows them (NaN = null: a double array cannot tell) *)
+Definition chk_iter_lists (P : chunked) (L : lcol) (nm : string) (impl : res (list nprow)) : list bool :=
+  [ res_eqb (list_eqb nprow_eqb) (res_map (map denan_nprow) (m_iter_field_lists P nm)) impl;
+    res_eqb (list_eqb nprow_eqb) (res_map (map denan_nprow) (spec_iter_field_lists L nm)) impl;
+    wf_b P; lcol_eqb (abs P) L ].
+Definition chk_iter_all (P : chunked) (L : lcol) (impls : list (string * res (list nprow))) : list bool :=
+  fold_right (fun x acc => map2 andb (chk_iter_lists P L (fst x) (snd x)) acc) [true; true; true; true] impls.
